@@ -321,6 +321,13 @@ def entries_check(lib_raw=None):
     if len(entries) < 5:
         undecided.append('fewer than five public parser entries found in sv-parser-parser/src/lib.rs (anchor lost)')
     for name, body in entries:
+        # a memoising / tracing attribute on an ENTRY wraps its body: the memo table would be consulted BEFORE init() clears it
+        pre = lib_raw[:lib_raw.index('pub fn ' + name)]
+        attrs = re.findall(r'#\[(\w+)\]', pre[pre.rfind('}') + 1:])
+        for a_ in attrs:
+            if a_ in ('packrat_parser', 'recursive_parser'):
+                failures.append(fail(name, 'C07.entry-is-not-memoised.%s' % name, 'public entry %s carries #[%s]: its wrapper runs before init()' % (name, a_), ['C07', 'C17', 'C15', 'C20'],
+                                     Dummy('sv-parser-parser/src/lib.rs', pre.count('\n') + 1)))
         if not re.match(r'init\([^;]*\);', re.sub(r'\s+', '', body)):
             failures.append(fail(name, 'C07.entry-calls-init-first.%s' % name, 'public entry %s does not call init() first' % name, ['C07', 'C17', 'C15'], Dummy('sv-parser-parser/src/lib.rs', lib_raw[:lib_raw.index('pub fn ' + name)].count('\n') + 1)))
     # Error::Parse is the report of the STRICT parsers and of nothing else: it is constructed in parse_sv_pp / parse_lib_pp (unit
@@ -717,6 +724,16 @@ def effects_run(fns, table, comb):
         for need in ('nom_packrat::init!();', 'clear_directive();', 'clear_version();'):
             if need not in init_body:
                 failures.append(fail('init', 'C07.init-resets.%s' % need.strip('();').replace('::', '_').replace('!', ''), 'init() does not call %s' % need, ['C07'], Dummy('sv-parser-parser/src/lib.rs', 1)))
+    # each reset touches ITS thread-local (unit kwstack proves that what it touches is emptied; it reads the closure, not the name of
+    # the thread-local in front of `.with`)
+    for fnname, tl in (('clear_version', 'CURRENT_VERSION'), ('clear_directive', 'IN_DIRECTIVE')):
+        if by_name.get(fnname) is not None and fnname in direct:
+            checked += 1
+            w = set(x for k_, x in direct[fnname] if k_ == 'W')
+            if w and tl not in w:
+                failures.append(fail(fnname, 'C07.%s-resets-%s' % (fnname, tl), '%s() writes %s and not %s: init() no longer resets %s' % (fnname, sorted(w), tl, tl), ['C07', 'C13', 'C15', 'C17', 'C20'], by_name[fnname]))
+            elif not w:
+                undecided_e.append('%s: no write to a thread-local found (form not recognised)' % fnname)
     # that clear_directive / clear_version empty their stacks is decided by unit kwstack (Verus); here only their presence
     for fnname in ('clear_directive', 'clear_version'):
         checked += 1
